@@ -139,6 +139,24 @@ def rule_image_routes(ctx) -> None:
     chk.floor("C04.image-routes", 7)
 
 
+def rule_roundtrip(ctx) -> None:
+    """C04.cmd-roundtrip: the SB2 command classes interpreted on model objects (E19): parse(export(x)) has the fields of x and exports to
+    the same bytes (header packing, checksum, flag and memory-id bit fields included - the property setters are interpreted too)."""
+    from ..engines import roundtrip
+    vct = ctx.enum_model(ctx.cls(CMD, "VersionCheckType"))
+    table = [
+        ("CmdNop", [{}]),
+        ("CmdReset", [{}]),
+        ("CmdJump", [{"address": 0x100, "argument": 7, "spreg": 0x2000}, {"address": 0x100, "argument": 7, "spreg": None}]),
+        ("CmdCall", [{"address": 0x100, "argument": 7}]),
+        ("CmdErase", [{"address": 0x100, "length": 0x40, "flags": 1, "mem_id": 0x108}, {"address": 0, "length": 0, "flags": 0, "mem_id": 0}]),
+        ("CmdMemEnable", [{"address": 0x100, "size": 4, "mem_id": 9}]),
+        ("CmdVersionCheck", [{"ver_type": vct.NON_SECURE_VERSION, "version": 0x16}, {"ver_type": vct.SECURE_VERSION, "version": 1}]),
+        ("CmdProg", [{"address": 0x100, "mem_id": 4, "data_word1": 0x11223344, "data_word2": 0x55667788}]),
+    ]
+    roundtrip.check_classes(ctx, "C04.cmd-roundtrip", CMD, table, floor=8)
+
+
 def rule_routes(ctx) -> None:
     chk, prog = ctx.chk, ctx.prog
     n = 0
@@ -574,6 +592,7 @@ def run(ctx) -> None:
     ctx.rule(rule_wire)
     ctx.rule(rule_routes)
     ctx.rule(rule_image_routes)
+    ctx.rule(rule_roundtrip)
     ctx.rule(rule_setters)
     ctx.rule(rule_memid)
     ctx.rule(rule_mustcheck)
